@@ -13,7 +13,7 @@ def sh(cmd, **kw):
     return subprocess.run(cmd, shell=True, capture_output=True, text=True, **kw)
 res = {}
 try:
-    r = sh(f"git -C /repo worktree add -q --detach {wt} HEAD")
+    r = sh(f"flock /tmp/wt/.gitlock git -C /repo worktree add -q --detach {wt} HEAD")
     assert r.returncode == 0, r.stderr
     env = {**os.environ, "PYTHONPATH": wt, "OMP_NUM_THREADS": "1", "OPENBLAS_NUM_THREADS": "1", "MKL_NUM_THREADS": "1"}
     r = sh(f"git -C {wt} apply {patch}")
@@ -30,7 +30,7 @@ try:
         r = sh(f"cd {wt} && timeout 600 /venv/bin/python {demo}", env=env)
         res["demo_without_change_exit"] = r.returncode
 finally:
-    sh(f"git -C /repo worktree remove --force {wt}")
+    sh(f"flock /tmp/wt/.gitlock git -C /repo worktree remove --force {wt}")
     shutil.rmtree(wt, ignore_errors=True)
 ok = res.get("applies") and "106 passed" in res.get("tests_with_change", "") and res.get("demo_with_change_exit") == 1 \
     and res.get("demo_without_change_exit") == 0
